@@ -22,7 +22,8 @@ type PublishShowOptions struct {
 	// surnames is set by NewPublisher so that the surnames of the document
 	// that is being published do not have to be collected again for the header
 	// of every page. See getSurnames.
-	surnames *gedcom.StringSet
+	surnames         *gedcom.StringSet
+	surnamesDocument *gedcom.Document
 }
 
 type Publisher struct {
@@ -42,6 +43,7 @@ type Publisher struct {
 // If you only wish to generate files you should use a DirectoryFileWriter.
 func NewPublisher(doc *gedcom.Document, options *PublishShowOptions) *Publisher {
 	options.surnames = collectSurnames(doc, options.LivingVisibility)
+	options.surnamesDocument = doc
 
 	publisher := &Publisher{
 		doc:          doc,
